@@ -193,8 +193,10 @@ CHECKS = {
                 'written from the statement (distinct tags per token and category in order of first observation, dictionary-only tokens, score vectors '
                 'sized to the trainable candidates), and the tagger is run on the training sentences and on an unseen token.',
         'design_ref': 'DESIGN.md section 5.C12',
-        'note': 'Not a proof. The equality of stored scores with the learned classifier is not checked (coefficients are not observable). The feature '
-                'ranges of TagTrainer::add_example were repaired under C11 (cd9204e).',
+        'note': 'Not a proof of the property. Supporting obligations (Verus, unit X_tagtrain): TagTrainer::add_example stores one example per token, '
+                'with the token\'s tag row and exactly the n-grams 1..N characters longer than the token that contain it, lie inside the sentence and '
+                'end 0..window characters after its end, with that distance as relative position (the range the tag scorers can see; repaired under '
+                'C11, cd9204e). The equality of stored scores with the learned classifier is not checked (coefficients are not observable).',
         'technique': 'bounded sweep of the real trainer against a reference written from the statement (labelled stand-in, not proof)',
     },
     'C17': {
